@@ -33,6 +33,8 @@ def _grid(shape, rng, cap, horizon, opts):
         names.append(("sdur", i))
         axes.append(opts.get("cdur", [0]))
         names.append(("cdur", i))
+        axes.append(opts.get("scdur", [0]))
+        names.append(("scdur", i))
         axes.append(opts.get("dur", [-2]))
         names.append(("dur", i))
     for i in scheds:
@@ -56,7 +58,7 @@ def _grid(shape, rng, cap, horizon, opts):
 
     def build(choice):
         kw = {key: [None] * n for key in
-              ("crit", "forever", "sdur", "cdur", "dur", "win", "tmo", "stmo")}
+              ("crit", "forever", "sdur", "cdur", "scdur", "dur", "win", "tmo", "stmo")}
         pure = False
         for (name, i), val in zip(names, choice):
             if name == "jf":
@@ -67,7 +69,7 @@ def _grid(shape, rng, cap, horizon, opts):
                 kw[name][i] = val
         for i in range(n):
             for key, dflt in (("crit", False), ("forever", False), ("sdur", 0),
-                              ("cdur", 0), ("dur", 0), ("win", 0), ("tmo", -1),
+                              ("cdur", 0), ("scdur", 0), ("dur", 0), ("win", 0), ("tmo", -1),
                               ("stmo", 1)):
                 if kw[key][i] is None:
                     kw[key][i] = dflt
@@ -140,7 +142,7 @@ def family(name, tier, seed):
             S([J(), J(0), S([J()], 1)]),
         ]]
         add(shapes, 500 if quick else 12000, 2,
-            dict(win=[0], tmo=[-1, 1], cdur=[0, 1], sdur=[0, 1, 2, -1],
+            dict(win=[0], tmo=[-1, 1], cdur=[0, 1], sdur=[0, 1, 2, -1], scdur=[0, 1],
                  stmo=[0, 1, 2, -1],
                  jobflags=[(False, False), (True, False)],
                  schedflags=[(False, False), (True, False), (False, True)]))
